@@ -149,9 +149,13 @@ pub fn search(suite: &str, a: &[&str]) -> Option<String> {
             let (w, h) = (r.size.width as i64, r.size.height as i64);
             let n64 = n as i64;
             let ok = if n >= 0 {
-                if w > 0 && h > 0 {
-                    o.top_left == r.top_left - Point::new(n, n) && o.size.width as i64 == w + 2 * n64 && o.size.height as i64 == h + 2 * n64
-                } else { true }
+                // per axis; a zero extent grows to 2n starting n-1 before the old position (C16_offset_grow_axis)
+                let axis = |t0: i32, e: i64, t1: i32, e1: u32| {
+                    if e > 0 { t1 as i64 == t0 as i64 - n64 && e1 as i64 == e + 2 * n64 }
+                    else if n64 > 0 { t1 as i64 == t0 as i64 - (n64 - 1) && e1 as i64 == 2 * n64 }
+                    else { t1 == t0 && e1 == 0 }
+                };
+                axis(r.top_left.x, w, o.top_left.x, o.size.width) && axis(r.top_left.y, h, o.top_left.y, o.size.height)
             } else {
                 let m = -n64;
                 (if 2 * m < w { o.top_left.x as i64 == r.top_left.x as i64 + m && o.size.width as i64 == w - 2 * m } else { o.size.width == 0 })
